@@ -8,15 +8,45 @@ import monitors_engine as M  # noqa: E402
 
 LEAN_MODULES = ["KmipModel.Props.C08"]
 RULE = ("batches of 1..6 items mixing succeeding and failing operations, with/without batch item IDs, "
-        "Stop/Continue/Undo, over random stores; patterns [fail X on o; succeed Y; read o] arise from the generator's "
+        "Stop/Continue/Undo, over random stores; templates carry, with probability 0.3, an attribute that is only "
+        "refused when it is set on the object (a handler failing late, after it may have touched the session); patterns [fail X on o; succeed Y; read o] arise from the generator's "
         "bias to existing objects; non-trivial = a batch with >= 2 items containing both a success and a failure, or a "
         "rejected request; distinct = distinct (request, identity, outcome shape)")
-PROFILE = {"groups": 0.1, "missing_bid": 0.06, "restart": 0.02, "batch": True}
+PROFILE = {"groups": 0.1, "missing_bid": 0.06, "restart": 0.02, "batch": True, "late_fail": 0.3,
+           "ops": None}
 MONITORS = [M.mon_c08, M.mon_c15]
+
+
+LATE = ["Contact Information", "Activation Date", "State", "Lease Time"]
+
+
+def late_failure_line(g):
+    """[an object-creating item whose template is refused only when its attributes are set on the object;
+    then items that commit] under Continue: the failed item must leave nothing behind for the later commit"""
+    op = g.ch(["createKeyPair", "createKeyPair", "create", "register", "deriveKey"])
+    n = g.ch([2, 2, 3])
+    line = g.line(nitems=n, ops=[op] + [g.ch(["create", "register", "activate", "revoke", "createKeyPair"])
+                                         for _ in range(n - 1)])
+    it = line["req"]["items"][0]
+    slot = g.ch(["priv", "priv", "pub", "common"]) if op == "createKeyPair" else "tmpl"
+    if it.get(slot) is None:
+        it[slot] = {"tnames": 0, "attrs": []}
+    it[slot]["attrs"] = [a for a in it[slot]["attrs"] if a["name"] not in LATE] + [g.tattr(g.ch(LATE))]
+    if op == "createKeyPair":
+        # the other templates must get through: keep them free of late-failing attributes
+        for other in ("priv", "pub", "common"):
+            if other != slot and it.get(other):
+                it[other]["attrs"] = [a for a in it[other]["attrs"] if a["name"] not in LATE]
+    line["req"]["bopt"] = 1
+    return line
 
 
 def builder(g, E, do, length):
     for _ in range(length):
+        if g.p(0.2):
+            do(late_failure_line(g))
+            do({"cmd": "dump"})
+            continue
         n = g.ch([1, 2, 2, 3, 3, 4, 5, 6])
         line = g.line(nitems=n)
         if n > 1:
